@@ -83,10 +83,6 @@ def step (st : St) (fs : List String) : St × String :=
     | some k => let (s, r) := doRawDel st k; (s, showRes r)
     | _ => (st, "bad-op")
   | ["dump"] => (st, showRes (doDump st))
-  | ["join", p, a] =>
-    match parseHex? p, parseHex? a with
-    | some p, some a => (st, "j:" ++ toHex (joinPath p a))
-    | _, _ => (st, "bad-op")
   | _ => (st, "bad-op")
 
 def streams : List (String × Driver.Stream) :=
